@@ -295,6 +295,8 @@ def flat_error(exc):
 def check_case(ctx: runner.Ctx, case):  # noqa: C901, PLR0912, PLR0915
     if case.get("renamed"):
         return check_renamed(ctx, case)
+    if case.get("inherit"):
+        return check_inherit(ctx, case)
     spec, recipe = case["spec"], case["recipe"]
     kinds = [k for k in KINDS if applicable(spec, k)]
     if recipe.get("as_list"):
@@ -495,7 +497,81 @@ def _norm_err(flat):
     return flat
 
 
+# ------------------------------------------------------------------------ parent / child twins: providers bound to the parent class
+INHERIT_KINDS = {
+    "dataclass": "@dataclasses.dataclass\nclass {p}:\n    login_name: str\n\n@dataclasses.dataclass\nclass {c}({p}):\n    access_level: int = 0\n",
+    "attrs": "@attrs.define\nclass {p}:\n    login_name: str\n\n@attrs.define\nclass {c}({p}):\n    access_level: int = 0\n",
+    "pydantic": "class {p}(pydantic.BaseModel):\n    login_name: str\n\nclass {c}({p}):\n    access_level: int = 0\n",
+    "typeddict": "class {p}(typing.TypedDict):\n    login_name: str\n\nclass {c}({p}):\n    access_level: int\n",
+}
+INHERIT_RECIPES = ["style_on_parent", "map_on_parent", "dumper_on_parent", "loader_on_parent", "field_loader_on_parent",
+                   "style_on_child"]
+_inh_uid = itertools.count()
+
+
+def inherit_cases():
+    for r in INHERIT_RECIPES:
+        for dbg in (0, 1, 2):
+            yield {"inherit": r, "debug": dbg}
+
+
+def _inherit_classes(kind):
+    import attrs  # noqa: PLC0415
+    import pydantic  # noqa: PLC0415
+    n = next(_inh_uid)
+    p, c = f"Par{n}", f"Chi{n}"
+    ns = {"dataclasses": dataclasses, "attrs": attrs, "pydantic": pydantic, "typing": typing}
+    exec(compile(INHERIT_KINDS[kind].format(p=p, c=c), f"<c17 inherit {kind}>", "exec", dont_inherit=True), ns)  # noqa: S102
+    return ns[p], ns[c]
+
+
+def check_inherit(ctx: runner.Ctx, case):
+    """The SAME recipe, bound to the parent class (a concrete class: "the provider will be applied to all same types"), x every
+    model kind that can inherit: what the CHILD model loads from / dumps to must not depend on the kind."""
+    from adaptix import dumper, loader  # noqa: PLC0415
+    ctx.case([case], True, sample=case, labels=["part:inherited_twin", f"inherit:{case['inherit']}"])
+    outs = {}
+    for kind in INHERIT_KINDS:
+        if kind == "typeddict" and case["inherit"] == "map_on_parent":
+            # a TypedDict child has no runtime base classes (its MRO is child, dict, object): that the undocumented inheritance of
+            # ``map`` does not reach it is not a disagreement about a documented rule
+            ctx.count("unspecified_inherited_map_on_typeddict")
+            continue
+        par, chi = _inherit_classes(kind)
+        r = case["inherit"]
+        recipe = {"style_on_parent": lambda: [name_mapping(par, name_style=NameStyle.CAMEL)],
+                  "map_on_parent": lambda: [name_mapping(par, map={"login_name": "LN"})],
+                  "dumper_on_parent": lambda: [dumper(par, lambda o: "<parent>")],
+                  "loader_on_parent": lambda: [loader(par, lambda d: "<parent>")],
+                  "field_loader_on_parent": lambda: [loader(P[par].login_name, lambda d: "<via parent field>")],
+                  "style_on_child": lambda: [name_mapping(chi, name_style=NameStyle.CAMEL)]}[r]()
+        retort = Retort(recipe=recipe, debug_trail=DEBUG[case["debug"]])
+        obj = {"login_name": "root", "access_level": 7} if kind == "typeddict" else chi(login_name="root", access_level=7)
+        res = []
+        try:
+            res.append(("dump", retort.dump(obj, chi)))
+        except Exception as ex:  # noqa: BLE001
+            res.append(("dump_err", type(ex).__name__))
+        for datum in ({"login_name": "root", "access_level": 7}, {"loginName": "root", "accessLevel": 7}, {"LN": "root", "access_level": 7}):
+            try:
+                v = retort.load(datum, chi)
+                get = (lambda k: v[k]) if kind == "typeddict" else (lambda k: getattr(v, k))  # noqa: B023
+                res.append(("load", repr(get("login_name")), repr(get("access_level"))))
+            except Exception as ex:  # noqa: BLE001
+                res.append(("load_err", type(ex).__name__))
+        outs[kind] = res
+    ref = outs["dataclass"]
+    for kind, res in outs.items():
+        if res != ref:
+            ctx.violation("inherited_twin_differs", (case["inherit"], kind), case,
+                          f"recipe {case['inherit']} bound to the parent, debug={case['debug']}: the {kind} child gives {res!r}, the "
+                          f"dataclass child {ref!r}")
+
+
 def explore(ctx: runner.Ctx):
+    for i, c in enumerate(inherit_cases()):
+        if i % ctx.nshards == ctx.shard:
+            runner.guarded(ctx, lambda k: check_case(ctx, k), c)
     n_ren = 0
     for i, c in enumerate(renamed_cases()):
         n_ren += 1
